@@ -60,93 +60,93 @@ func vc12Seeds(dir string, rng *vh.Rng) ([]c12h.Seed, error) {
 	{
 		w, err := NewWriter_SlotToCid(7, vc12Root, NetworkMainnet, tmp("t0"), 5)
 		if err != nil {
-			return nil, err
+			return seeds, err
 		}
 		var keys [][]byte
 		for i := 0; i < 5; i++ {
 			slot := uint64(7*432000 + i*3)
 			if err := w.Put(slot, vc12Cid(rng)); err != nil {
-				return nil, err
+				return seeds, err
 			}
 			keys = append(keys, Uint64tob(slot))
 		}
 		if err := w.Seal(ctx, tmp("o0")); err != nil {
-			return nil, err
+			return seeds, err
 		}
 		if err := read(w.GetFilepath(), 0, keys); err != nil {
-			return nil, err
+			return seeds, err
 		}
 		w.Close()
 	}
 	{
 		w, err := NewWriter_SigToCid(7, vc12Root, NetworkTestnet, tmp("t1"), 4)
 		if err != nil {
-			return nil, err
+			return seeds, err
 		}
 		var keys [][]byte
 		for i := 0; i < 4; i++ {
 			var sig solana.Signature
 			copy(sig[:], rng.Bytes(64))
 			if err := w.Put(sig, vc12Cid(rng)); err != nil {
-				return nil, err
+				return seeds, err
 			}
 			keys = append(keys, append([]byte(nil), sig[:]...))
 		}
 		if err := w.Seal(ctx, tmp("o1")); err != nil {
-			return nil, err
+			return seeds, err
 		}
 		if err := read(w.GetFilepath(), 1, keys); err != nil {
-			return nil, err
+			return seeds, err
 		}
 		w.Close()
 	}
 	{
 		w, err := NewWriter_CidToOffsetAndSize(7, vc12Root, NetworkDevnet, tmp("t2"), 6)
 		if err != nil {
-			return nil, err
+			return seeds, err
 		}
 		var keys [][]byte
 		for i := 0; i < 6; i++ {
 			c := vc12Cid(rng)
 			if err := w.Put(c, uint64(100+i*77), uint64(40+i)); err != nil {
-				return nil, err
+				return seeds, err
 			}
 			keys = append(keys, c.Bytes())
 		}
 		if err := w.Seal(ctx, tmp("o2")); err != nil {
-			return nil, err
+			return seeds, err
 		}
 		if err := read(w.GetFilepath(), 2, keys); err != nil {
-			return nil, err
+			return seeds, err
 		}
 		w.Close()
 	}
 	{
 		w, err := NewWriter_PubkeyToOffsetAndSize(7, vc12Root, NetworkMainnet, tmp("t3"))
 		if err != nil {
-			return nil, err
+			return seeds, err
 		}
 		var keys [][]byte
 		for i := 0; i < 4; i++ {
 			var pk solana.PublicKey
 			copy(pk[:], rng.Bytes(32))
 			if err := w.Put(pk, uint64(1000+i), uint64(90+i)); err != nil {
-				return nil, err
+				return seeds, err
 			}
 			keys = append(keys, append([]byte(nil), pk[:]...))
 		}
 		if err := w.Seal(ctx, tmp("o3")); err != nil {
-			return nil, err
+			return seeds, err
 		}
 		if err := read(w.GetFilepath(), 3, keys); err != nil {
-			return nil, err
+			return seeds, err
 		}
 		w.Close()
 	}
 	{ // a legacy slot-to-cid index (compactindex36): OpenWithReader_SlotToCid dispatches on the magic
 		b, err := compactindex36.NewBuilder(tmp("t4"), 3, 1<<20)
 		if err != nil {
-			return nil, err
+			return seeds, err
 		}
 		var keys [][]byte
 		for i := 0; i < 3; i++ {
@@ -154,32 +154,37 @@ func vc12Seeds(dir string, rng *vh.Rng) ([]c12h.Seed, error) {
 			copy(v[:], vc12Cid(rng).Bytes())
 			k := Uint64tob(uint64(i * 5))
 			if err := b.Insert(k, v); err != nil {
-				return nil, err
+				return seeds, err
 			}
 			keys = append(keys, k)
 		}
 		p := filepath.Join(dir, "legacy36.index")
 		f, err := os.Create(p)
 		if err != nil {
-			return nil, err
+			return seeds, err
 		}
 		if err := b.Seal(ctx, f); err != nil {
-			return nil, err
+			return seeds, err
 		}
 		f.Close()
 		b.Close()
 		if err := read(p, 0, keys); err != nil {
-			return nil, err
+			return seeds, err
 		}
 		seeds[len(seeds)-1].Name = "legacy36"
 	}
 	// every sized seed must open with its own reader
-	for i := range seeds[:4] {
-		in := c12h.Input{Entry: vc12Entries[i], Data: seeds[i].Data, Keys: seeds[i].Keys, Aux: []uint64{uint64(i), 0}}
-		if o := vc12Exec(&in); o.Class != "ok" {
-			return nil, fmt.Errorf("seed %s does not open and answer", seeds[i].Name)
+	seeds = c12h.KeepSeeds(seeds, func(i int, s *c12h.Seed) error {
+		if s.Name == "legacy36" {
+			return nil
 		}
-	}
+		kind := s.Nums[0]
+		in := c12h.Input{Entry: vc12Entries[kind], Data: s.Data, Keys: s.Keys, Aux: []uint64{kind, 0}}
+		if o := vc12Exec(&in); o.Class != "ok" {
+			return fmt.Errorf("does not open and answer")
+		}
+		return nil
+	})
 	return seeds, nil
 }
 
